@@ -14,7 +14,16 @@ import (
 	"time"
 )
 
-const Root = "/verif"
+// Root is the framework directory: the working directory of the driver (the ./check script cds into
+// its own directory, which is /verif for the registered commands and a snapshot for `vp run` jobs).
+var Root = func() string {
+	if d, err := os.Getwd(); err == nil {
+		if _, e := os.Stat(filepath.Join(d, "known_findings.jsonl")); e == nil {
+			return d
+		}
+	}
+	return "/verif"
+}()
 
 // OutRoot is where evidence and replay files go (VERIF_OUT is used by the mutation self-test only).
 func OutRoot() string {
